@@ -210,14 +210,63 @@ func name(id int) string {
 	return fmt.Sprintf("v%d", id)
 }
 
+// refExpr returns an expression with the value of the item r in which the
+// reference to r stands in one of several syntactic positions (chosen by the
+// two identifiers, so that every run of the same package prints the same
+// source): the dependency analysis has to find it in each of them.
+func refExpr(owner, r int) string {
+	if r >= 10 {
+		f := fmt.Sprintf("f%d", r)
+		switch (owner*7 + r) % 5 {
+		case 0:
+			return "func() int { return " + f + "() }()"
+		case 1:
+			return "[]func() int{" + f + "}[0]()"
+		case 2:
+			return "map[string]func() int{\"k\": " + f + "}[\"k\"]()"
+		case 3:
+			return "struct{ g func() int }{g: " + f + "}.g()"
+		}
+		return f + "()"
+	}
+	v := fmt.Sprintf("v%d", r)
+	switch (owner*5 + r) % 10 {
+	case 0:
+		return "[]int{" + v + "}[0]"
+	case 1:
+		return "func() int { for k := range map[int]bool{" + v + ": true} { return k }; return 0 }()"
+	case 2:
+		return "struct{ a int }{a: " + v + "}.a"
+	case 3:
+		return "struct{ a, b int }{1, " + v + "}.b"
+	case 4:
+		return "func() int { return " + v + " }()"
+	case 5:
+		return "map[string]int{\"k\": " + v + "}[\"k\"]"
+	case 6:
+		return "[2]int{1: " + v + "}[1]"
+	case 7:
+		return "[]struct{ a int }{{a: " + v + "}}[0].a"
+	case 8:
+		return "*(&[]int{" + v + "}[0])"
+	}
+	return v
+}
+
 // body returns the declarations of p; rec is the recording function's qualified name.
 func (p pkg) decls(rec string) string {
 	var b strings.Builder
 	// variables and functions interleaved: variables in their order, functions after
-	for _, v := range p.vars {
+	for i, v := range p.vars {
 		e := fmt.Sprint(v.id)
 		for _, r := range v.refs {
-			e += " + " + name(r)
+			e += " + " + refExpr(v.id, r)
+		}
+		// a field with the name of another variable of the package is not a reference to it (a
+		// checker that takes it for one reports a cycle or changes the order: seeded C01-e and
+		// the defect repaired by "the field names of a struct literal were taken as dependencies")
+		if o := p.vars[(i+v.id)%len(p.vars)]; (v.id+len(v.refs))%3 == 0 {
+			e += fmt.Sprintf(" + struct{ v%d int }{v%d: 0}.v%d", o.id, o.id, o.id)
 		}
 		fmt.Fprintf(&b, "var v%d = %s(%d, %s)\n", v.id, rec, v.id, e)
 	}
@@ -228,7 +277,7 @@ func (p pkg) decls(rec string) string {
 			if f.guarded[r] {
 				g += fmt.Sprintf("n := 0; if n > 0 { return %s }; ", name(r))
 			} else {
-				e += " + " + name(r)
+				e += " + " + refExpr(f.id, r)
 			}
 		}
 		fmt.Fprintf(&b, "func f%d() int { %sreturn %s }\n", f.id, g, e)
